@@ -44,7 +44,12 @@ MANIFEST = {
 OPS = ("check", "compile_function", "compile")
 # faults that leave something behind when they fire (namespace, tracing state, partially
 # compiled dependencies) are drawn more often than plain type errors
-C11_MISTAKES = gen.MISTAKES       # stratified over (case index, module), see run_case
+# stratified over (case index, module), see run_case; faults that can leave something behind
+# when they fire (namespace, tracing state, markers on definitions, partially compiled
+# dependencies) get extra slots
+C11_MISTAKES = gen.MISTAKES + ("nested_recursive_body_fails",) * 3 + \
+    ("comptime_raises", "comptime_expr_raises", "assign_captured", "struct_bad_field_type",
+     "family_body_fails", "struct_methods_override_fields", "nested_recursive_body_fails")
 
 
 def warm() -> None:
@@ -67,7 +72,7 @@ def plan(tier: str, seed: int) -> dict:
     import tempfile
     cache = tempfile.mkdtemp(prefix="verif-c11-refs-")
     if tier == "quick":
-        return {"budget_s": 110, "min_budget": 40, "slice": 16, "scratch": cache, "phases": [
+        return {"budget_s": 140, "min_budget": 40, "slice": 16, "scratch": cache, "phases": [
             {"name": "generated", "n_cases": 400, "cases_per_job": 1,
              "params": {"min_ops": 10, "max_ops": 320, "max_stmts": 10, "max_refs": 6}},
             {"name": "corpus", "n_cases": 640, "cases_per_job": 8,
